@@ -15,5 +15,12 @@ anch = "; ".join(p["anchors"]["files"]) + " | mechanisms: " + "; ".join(f"{m['na
 for k, v in {"@DIR@": base + "/repo", "@BR@": f"seed-{tag}", "@SCRATCH@": base, "@ID@": pid, "@TITLE@": p["title"],
              "@STATEMENT@": p["statement"], "@QUANT@": p["quantifier"]["text"], "@WHY@": p["why_tests_cant"], "@ANCHORS@": anch}.items():
     t = t.replace(k, v)
+import glob
+prev = []
+for d in sorted(glob.glob(f"/verif/seeded/{pid}-*/meta.json")):
+    prev.append("  - " + json.load(open(d)).get("summary", "")[:400])
+if prev:
+    t = t.replace("Your job: produce ONE realistic change", "Other engineers have already produced the following changes for this property; yours must be of a DIFFERENT kind, in a "
+                  "different function or mechanism of the anchored code, needing a different trigger:\n" + "\n".join(prev) + "\n\nYour job: produce ONE realistic change")
 open(base + "/prompt.md", "w").write(t)
 print(base + "/prompt.md")
